@@ -132,7 +132,7 @@ func (bv *BitVector) Equals() bool {
 		return false
 	}
 
-	l := len(bv.b)
+	l := (bv.len + 7) / 8 // only the bytes that hold the vector's bits; the backing slice may be longer
 
 	length := bv.len % 8
 	for i := 0; i < l; i++ {
